@@ -291,7 +291,6 @@ func c12RunOne(t *testing.T, rng *rand.Rand, tw *vfTraceWriter, trNo int, cfg c1
 	var live, peak atomic.Int32
 	var ipLive [3]atomic.Int32
 	var ipPeak [3]atomic.Int32
-	var appClosers sync.WaitGroup
 	closeSeed := rng.Int63()
 
 	handler := func(ctx *RequestCtx) {
@@ -334,9 +333,7 @@ func c12RunOne(t *testing.T, rng *rand.Rand, tw *vfTraceWriter, trNo int, cfg c1
 				rec.emit(vfRec{"ev": "hj.exit", "c": id}, 0)
 				if cfg.keep {
 					// the application owns the connection now and closes it later
-					appClosers.Add(1)
 					go func() {
-						defer appClosers.Done()
 						time.Sleep(time.Duration((closeSeed+int64(id)*131)%1500) * time.Microsecond)
 						c.Close()
 					}()
@@ -418,7 +415,6 @@ func c12RunOne(t *testing.T, rng *rand.Rand, tw *vfTraceWriter, trNo int, cfg c1
 	}
 	cwg.Wait()
 	swg.Wait()
-	appClosers.Wait()
 
 	// quiescence: every connection closed, or hijacked and released
 	busy := func() int {
